@@ -1,4 +1,4 @@
-use crate::{query_imports::*, state::ROYALTY_REGISTRY};
+use crate::{query_imports::*, state::ROYALTY_REGISTRY, contract::WEEK_IN_SECS};
 
 //~~~~~~~~~~~~~~~~~~~~~~~~~~~~~~~~~~~~~~~~~~~
 // Queries
@@ -8,9 +8,11 @@ use crate::{query_imports::*, state::ROYALTY_REGISTRY};
 pub fn get_fee_denom(deps: Deps) -> StdResult<FeeDenomResponse> {
     let fee_denom: FeeDenom = FEE_DENOM.load(deps.storage)?;
 
+    // FeeCycle is refused while block seconds <= last change + one week,
+    // so the first second at which it is accepted is one later
     let (name, next_change) = match fee_denom {
-        FeeDenom::JUNO(x) => ("JUNO".to_string(), x),
-        FeeDenom::USDC(y) => ("USDC".to_string(), y),
+        FeeDenom::JUNO(x) => ("JUNO".to_string(), x.saturating_add(WEEK_IN_SECS).saturating_add(1)),
+        FeeDenom::USDC(y) => ("USDC".to_string(), y.saturating_add(WEEK_IN_SECS).saturating_add(1)),
     };
 
     Ok(FeeDenomResponse {
